@@ -7,7 +7,7 @@ from common import hx
 from props.c02 import boundary_values
 
 ID = "C06"
-LEAN_IMPORTS = ["PyTrie.Props.C06", "PyTrie.Props.C05Batch", "PyTrie.Props.RawLevel", "PyTrie.Props.NonVacuity"]
+LEAN_IMPORTS = ["PyTrie.Props.C06", "PyTrie.Props.C05Batch", "PyTrie.Props.RawLevel", "PyTrie.Props.NonVacuity", "PyTrie.Props.NonVacuity4"]
 THEOREMS = [
     "PyTrie.Props.C06.setE_tree",
     "PyTrie.Props.C06.deleteE_tree",
@@ -31,6 +31,13 @@ THEOREMS = [
     "PyTrie.Props.Raw.pruned_db_complete",
     "PyTrie.Props.Raw.prune_op_keeps_complete",
     "PyTrie.Props.Raw.pruned_db_get",
+    "PyTrie.Props.NonVacuity4.hist5_reach_p",
+    "PyTrie.Props.NonVacuity4.pruned_complete",
+    "PyTrie.Props.NonVacuity4.pruned_get",
+    "PyTrie.Props.NonVacuity4.pruned_get_k1",
+    "PyTrie.Props.NonVacuity4.pruned_get_k2",
+    "PyTrie.Props.NonVacuity4.prunedBase_length",
+    "PyTrie.Props.NonVacuity4.pruned_gone",
 ]
 RULE = ("pruning tries started on an empty database and modified only through their own API: histories of "
         "set/delete/set-to-empty/no-op updates and squash_changes blocks (committed and aborted) over prefix-sharing "
